@@ -38,6 +38,25 @@ def delta_of(e, field):
     return None
 
 
+GEOMETRY = ("_q", "_r", "_size", "_QuotientFilter__mod_size")
+ARRAYS = ("_filter", "_is_occupied", "_is_continuation", "_is_shifted")
+
+
+def geometry_writers(prog):
+    """(entry methods, private helper qualnames): who assigns a geometry field or one of the four arrays of the receiver"""
+    CTX = "QuotientFilter"
+    K = prog.cls(CTX)
+    direct = []
+    for f in K.methods.values():
+        for p in paths(prog, CTX, f):
+            if any(e.kind == "setfield" and e.base == SELF and e.name in GEOMETRY + ARRAYS and e.func is f for e in p.events):
+                direct.append(f)
+                break
+    helpers = tuple(sorted(f.qualname for f in direct if f.src_name.startswith("_") and f.src_name != "__init__"))
+    entries = [f for f in K.methods.values() if f.src_name == "__init__" or not f.src_name.startswith("_")]
+    return entries, helpers
+
+
 def quotient_counter_rules(prog, rep, rid):
     """quotient filter: +1 per slot filled, -1 per slot emptied, unchanged when absent, reset with the arrays (shared with C04)"""
     # ---------------------------------------------------------------- quotient filter
@@ -77,12 +96,32 @@ def quotient_counter_rules(prog, rep, rid):
     rep.analysed(fr, ctx, npaths)
     if okq:
         rep.ok(rid, f"{ctx}._remove_element: -1 on every mutating path ({npaths} paths), 0 when absent")
-    sp = prog.method(ctx, "__set_params")
-    oks = all(any(e.value == C(0) for e in counter_events(p, E)) and p.fields.get((SELF, "_filter")) is not None for p in paths(prog, ctx, sp) if p.exit[0] == "return")
-    if oks:
-        rep.ok(rid, f"{ctx}.__set_params: counter reset together with the arrays")
-    else:
-        rep.bad(rid, f"{ctx}.__set_params", "no reset", "the arrays are replaced without resetting elements_added", sp.where())
+    # reset with the arrays: wherever a method (private helpers looked through) gives the receiver a new remainder array, it also
+    # sets the counter - to 0 next to a fresh allocation, to the donor's counter next to an adopted array
+    entries, helpers = geometry_writers(prog)
+    nres, badr = 0, None
+    for f in entries:
+        for p in paths(prog, ctx, f, force_inline=helpers):
+            if p.exit[0] != "return":
+                continue
+            arr = [e for e in p.events if e.kind == "setfield" and e.base == SELF and e.name == "_filter"]
+            if not arr:
+                continue
+            nres += 1
+            v = strip_epochs(arr[-1].value)
+            sets = [strip_epochs(e.value) for e in counter_events(p, E) if e.kind == "setfield"]
+            if v[0] == "f" and v[2] == "_filter" and v[1] != SELF:
+                want = ("f", v[1], E, 0)
+                what = f"the counter of {nshow(v[1])}"
+            else:
+                want, what = C(0), "0"
+            if want not in sets:
+                badr = badr or (f, arr[-1], what)
+    if badr:
+        rep.bad(rid, f"{ctx}.{badr[0].src_name}", "no reset", f"{badr[0].src_name} replaces the arrays without setting elements_added to {badr[2]}: the counter no longer "
+                "matches the stored hashes (re-inserted elements are counted twice)", badr[1].where())
+    elif nres:
+        rep.ok(rid, f"{ctx}: counter reset together with the arrays on {nres} path(s)")
 
 
 def check(prog, rep, tier):
@@ -213,7 +252,7 @@ def check(prog, rep, tier):
             if p.exit[0] != "return":
                 continue
             ev = counter_events(p, T)
-            if not ev or unclamped(canon(ev[0].value)) != canon(("bin", sign, ("f", SELF, T, 0), num)):
+            if not ev or unclamped(canon(ev[0].value), (-2**63, 2**63 - 1)) != canon(("bin", sign, ("f", SELF, T, 0), num)):
                 rep.bad("C14.count-min", f"CountMinSketch.{fn}", "total", f"the total does not move by {sign}num_els", f.where())
                 ok = False
                 break
@@ -228,7 +267,7 @@ def check(prog, rep, tier):
         if not ev and any(c.truth and strip_epochs(c.atom) in (("cmp", "==", ("f", ("p", "second"), T, 0), C(0)), ("cmp", "==", C(0), ("f", ("p", "second"), T, 0)))
                           for c in p.conds):
             continue  # the operand's total is known to be 0 on this path: nothing to add
-        if not ev or unclamped(canon(ev[0].value)) != canon(("bin", "+", ("f", SELF, T, 0), ("f", ("p", "second"), T, 0))):
+        if not ev or unclamped(canon(ev[0].value), (-2**63, 2**63 - 1)) != canon(("bin", "+", ("f", SELF, T, 0), ("f", ("p", "second"), T, 0))):
             rep.bad("C14.count-min", "CountMinSketch.join", "total", "join does not add the operand's total", f.where())
             ok = False
             break
